@@ -1,6 +1,6 @@
 import MosnVerif.Model.HpackOrder
 import MosnVerif.Drive.Util
-/-! kind `h2w`: `h2w <srv|cli> <none|hold1|hold2> <w> <id=fields;…> => <order> <flag> <id=fields|err|missing;…>`
+/-! kind `h2w`: `h2w <srv|cli|clt> <none|hold1|hold2|holdh|holdt> <w> <id=fields;…> => <order> <flag> <id=fields|err|missing;…>`
 (harness/c02/h2w.go); fields = sorted `hex(name):hex(value)` tokens joined by `,`. -/
 namespace MosnVerif.Drive.HpackOrder
 open MosnVerif.Drive MosnVerif.Model.HpackOrder MosnVerif.Gen.H2WriteLock
@@ -21,20 +21,29 @@ def idxOfStream (reqs : List (Nat × List Field)) (st : Nat) : Option Nat :=
   let i := reqs.findIdx (·.1 == st)
   if i < reqs.length then some i else none
 
-/-- the schedule the gate produced: writers pass in the wire order; a non-atomic function lets the later writers
-encode before the earlier ones write (the held write) -/
-def schedule (us : List U) (wireOrder : List Nat) : List Nat :=
-  if us == [.both] then wireOrder else wireOrder.reverse ++ wireOrder
+/-- the function a block of the case is sent by: `srv` responses, `cli` request headers; `clt` mixes request headers
+(odd key = nominal stream id) and trailers (even key = nominal stream id + 1) -/
+def fnOf (side : String) (key : Nat) : Fn :=
+  if side == "srv" then serverWriteHeaders
+  else if side == "clt" && key % 2 == 0 then clientTrailers
+  else clientWriteHeaders
+
+/-- the schedule the gate produced: with a mutex common to the side's functions every writer encodes and writes in the
+wire order; without one the later writers may encode before the earlier ones write (the held write) -/
+def schedule (common : Bool) (wireOrder : List Nat) : List Nat :=
+  if common then wireOrder.flatMap (fun i => [i, i])
+  else wireOrder.reverse ++ wireOrder ++ wireOrder ++ wireOrder ++ wireOrder
 
 def run (side resps : String) (impl : List String) : String :=
-  let fn := if side == "cli" then clientWriteHeaders else serverWriteHeaders
+  let sideFns := if side == "srv" then serverFns else clientFns
   match (resps.splitOn ";").mapM parseResp, impl with
   | some reqs, [orderT, flag, gotT] =>
     let order := (orderT.splitOn ",").filterMap (fun t => t.toNat? >>= idxOfStream reqs)
     -- writers that did not show up on the wire run last (the model writes every block)
     let order := order ++ (List.range reqs.length).filter (fun i => !order.contains i)
-    let us := units fn.acts
-    let s := (Sys.start 64 reqs us).run (schedule us order)
+    let gs := reqs.map (fun r => heldAcross (fnOf side r.1).acts)
+    let common := !(commonGuard sideFns).isEmpty && reqs.all (fun r => sideFns.contains (fnOf side r.1))
+    let s := (Sys.start 64 reqs gs).run (schedule common order)
     let decoded : List (Nat × List Field) := match decAll 64 [] s.wire with
       | some (_, out) => out
       | none => []
